@@ -7,6 +7,13 @@ use crate::dedupe::verif_dedupe::{stub_format, NullLog, WARNED};
 use crate::file::verif_file::fake_metadata;
 use crate::path::verif_path::p1;
 
+/// a 16-byte hash whose u128 prefix is `first` (built from a slice: FileHash::from(u128) grows a Vec from a dangling
+/// pointer, which made CBMC's memory model report spurious failures in sibling units)
+fn h16(first: u8) -> FileHash {
+    let b: [u8; 16] = [first, 0, 0, 0, 0, 0, 0, 0, 0, 0, 0, 0, 0, 0, 0, 0];
+    FileHash::from(&b[..])
+}
+
 // ---------------------------------------------------------------------------------------------------------
 // C15.hash_err_to_none
 
@@ -27,7 +34,7 @@ where
     'h: 'h,
 {
     if unsafe { HASH_OUTCOME } == 0 {
-        Ok(FileHash::from(7u128))
+        Ok(h16(7))
     } else {
         Err(outcome_err())
     }
@@ -38,7 +45,7 @@ where
     'h: 'h,
 {
     if unsafe { HASH_OUTCOME } == 0 {
-        Ok((FileLen(3), FileHash::from(7u128)))
+        Ok((FileLen(3), h16(7)))
     } else {
         Err(outcome_err())
     }
@@ -138,7 +145,7 @@ fn stub_cache_get(_c: &HashCache, key: &Key, _m: &FileMetadata) -> Result<Option
             GET_KEY_OK = false;
         }
         if SLOT_HIT {
-            Ok(Some((FileLen(CHUNK_LEN), FileHash::from(STORED))))
+            Ok(Some((FileLen(CHUNK_LEN), h16(STORED as u8))))
         } else {
             Ok(None)
         }
@@ -166,7 +173,7 @@ fn stub_file_hash<H: StreamHasher>(_chunk: &FileChunk<'_>, _buf_len: usize, _pro
             return Err(io::Error::from(io::ErrorKind::Other));
         }
     }
-    Ok(FileHash::from(FRESH))
+    Ok(h16(FRESH as u8))
 }
 
 #[kani::proof]
